@@ -151,6 +151,11 @@ def mk_quat_ops():
     ops["OLEQ.NED[weights]"] = (amrow, s_w, b_w, "oleq")
     ops["Complementary.am_estimation"] = (amrow, lambda r: F.Complementary().am_estimation(r[0], r[1]), lambda rs: F.Complementary().am_estimation(A(rs), M(rs)), "exact")
     ops["Complementary.am_estimation.acc-only"] = (amrow, lambda r: F.Complementary().am_estimation(r[0]), lambda rs: F.Complementary().am_estimation(A(rs)), "exact")
+    # ---- frame helpers offered for one point and for N points
+    from ahrs.common import frames as FR
+    ops["ned2enu"] = (lambda c: amrow(c)[0], lambda r: FR.ned2enu(r.copy()), lambda rs: FR.ned2enu(stack(rs)), "exact")
+    ops["enu2ned"] = (lambda c: amrow(c)[1], lambda r: FR.enu2ned(r.copy()), lambda rs: FR.enu2ned(stack(rs)), "exact")
+    ops["am2angles"] = (amrow, lambda r: np.asarray(ori.am2angles(r[0].copy(), r[1].copy()))[0], lambda rs: ori.am2angles(A(rs), M(rs)), "exact")
     return ops
 
 
